@@ -6,6 +6,8 @@ package sim
 
 import (
 	"context"
+	"fmt"
+	"os"
 	"reflect"
 	"time"
 	"unsafe"
@@ -45,40 +47,75 @@ var keepAlive []*gocache.Cache
 // reached by reflection), so that everything else a run allocated can be collected after the run.
 func KeepAlive(x ...interface{}) {
 	for _, o := range x {
-		pinCaches(reflect.ValueOf(o), 0)
+		before := len(keepAlive)
+		pinCaches(reflect.ValueOf(o), 0, map[uintptr]bool{})
+		if os.Getenv("VERIF_DEBUG_PIN") != "" {
+			fmt.Fprintf(os.Stderr, "pin %T: %d caches\n", o, len(keepAlive)-before)
+		}
 	}
 }
 
 var gocacheType = reflect.TypeOf((*gocache.Cache)(nil))
 
-func pinCaches(v reflect.Value, depth int) {
-	if depth > 4 || !v.IsValid() {
+// pinCaches walks the object graph of a controller (pointers, structs, interfaces, slices, arrays,
+// maps; bounded depth; unexported fields made readable) and pins every *go-cache.Cache it finds.
+func pinCaches(v reflect.Value, depth int, seen map[uintptr]bool) {
+	if depth > 9 || !v.IsValid() {
 		return
 	}
 	switch v.Kind() {
-	case reflect.Ptr, reflect.Interface:
+	case reflect.Ptr:
 		if v.IsNil() {
 			return
 		}
 		if v.Type() == gocacheType {
-			if v.CanInterface() {
-				keepAlive = append(keepAlive, v.Interface().(*gocache.Cache))
+			c := (*gocache.Cache)(v.UnsafePointer())
+			for _, k := range keepAlive {
+				if k == c {
+					return
+				}
 			}
+			keepAlive = append(keepAlive, c)
 			return
 		}
-		pinCaches(v.Elem(), depth+1)
+		if seen[v.Pointer()] {
+			return
+		}
+		seen[v.Pointer()] = true
+		switch v.Type().Elem().PkgPath() {
+		case "sigs.k8s.io/karpenter/pkg/controllers/state", "verif/sim", "k8s.io/api/core/v1", "sigs.k8s.io/karpenter/pkg/apis/v1":
+			return // large graphs without caches
+		}
+		pinCaches(v.Elem(), depth+1, seen)
+	case reflect.Interface:
+		if !v.IsNil() {
+			pinCaches(v.Elem(), depth+1, seen)
+		}
 	case reflect.Struct:
 		for i := 0; i < v.NumField(); i++ {
 			f := v.Field(i)
-			if !f.CanAddr() {
-				continue
+			if f.CanAddr() {
+				f = reflect.NewAt(f.Type(), unsafe.Pointer(f.UnsafeAddr())).Elem()
 			}
-			// make unexported fields readable
-			f = reflect.NewAt(f.Type(), unsafe.Pointer(f.UnsafeAddr())).Elem()
 			switch f.Kind() {
-			case reflect.Ptr, reflect.Interface, reflect.Struct:
-				pinCaches(f, depth+1)
+			case reflect.Ptr, reflect.Interface, reflect.Struct, reflect.Slice, reflect.Array, reflect.Map:
+				pinCaches(f, depth+1, seen)
 			}
+		}
+	case reflect.Slice, reflect.Array:
+		if v.Len() > 64 {
+			return
+		}
+		for i := 0; i < v.Len(); i++ {
+			pinCaches(v.Index(i), depth+1, seen)
+		}
+	case reflect.Map:
+		if v.Len() > 64 {
+			return
+		}
+		it := v.MapRange()
+		for it.Next() {
+			pinCaches(it.Value(), depth+1, seen)
 		}
 	}
 }
